@@ -234,7 +234,7 @@ func waitFor(cond func() bool, d time.Duration, conns ...*wire.Conn) bool {
 
 func main() {
 	c := vk.Init("C04")
-	c.Rule("scenario i: 1..200 well-formed messages (any MsgType, 30..70000 bytes incl. single fields of 4000..70000 bytes, values containing '10=', fields 110/210/1010/9910) are concatenated and cut into read chunks by one of 13 strategies (all-in-one, one byte per read, random, message-aligned, coalescing, and a boundary at every offset 0..7 of every message's trailing CheckSum field), with feed timing {none, Gosched, 1 ms pauses}; delivered to (a) an Initiator with a recording handler that asserts one ServeIncoming at a time, (b) an Initiator with DefaultHandler + incoming callbacks, (c) an Acceptor with 1..8 simultaneous connections (arriving one at a time or all back to back before any handler exists) through the real handler factory, each message tagged (connection, counter); buffer sizes {0,1,10}. Outbound: 1..4 goroutines hand unique messages to Send/SendRaw; the peer-side capture is split by the reference splitter. Oracle: per connection delivered == sent (bytes, order, multiplicity), nothing from another connection, outbound stream == hand-off order (order seen by an outgoing ALL-handler under the handler's own lock; per-goroutine order for SendRaw). Write fault: 2..11 messages handed to SendRaw in order while one write takes only part of its message (cut anywhere, or inside the CheckSum field) and runs into a 30 ms write deadline, later writes being accepted: the captured stream must stay a prefix of the hand-offs. distinct = hash(partition signature, messages); non-trivial = >=2 messages or a boundary inside a CheckSum field")
+	c.Rule("scenario i: 1..200 well-formed messages (any MsgType, 30..70000 bytes incl. single fields of 4000..70000 bytes, values containing '10=', fields 110/210/1010/9910) are concatenated and cut into read chunks by one of 13 strategies (all-in-one, one byte per read, random, message-aligned, coalescing, and a boundary at every offset 0..7 of every message's trailing CheckSum field), with feed timing {none, Gosched, 1 ms pauses}; delivered to (a) an Initiator with a recording handler that asserts one ServeIncoming at a time, (b) an Initiator with DefaultHandler + incoming callbacks, (c) an Acceptor with 1..8 simultaneous connections (arriving one at a time or all back to back before any handler exists) through the real handler factory, each message tagged (connection, counter); buffer sizes {0,1,10}. Outbound: 1..4 goroutines hand unique messages to Send/SendRaw; the peer-side capture is split by the reference splitter. Oracle: per connection delivered == sent (bytes, order, multiplicity), nothing from another connection, outbound stream == hand-off order (order seen by an outgoing ALL-handler under the handler's own lock; per-goroutine order for SendRaw). Long pauses: 3..6 messages whose stream stops for 0.7..1.3 s inside a value, inside the CheckSum tag or value, between fields or between messages (the scripted connection honours read deadlines, should the library set any). Write fault: 2..11 messages handed to SendRaw in order while one write takes only part of its message (cut anywhere, or inside the CheckSum field) and runs into a 30 ms write deadline, later writes being accepted: the captured stream must stay a prefix of the hand-offs. distinct = hash(partition signature, messages); non-trivial = >=2 messages or a boundary inside a CheckSum field")
 	n := c.Pick(3000, 60000)
 	vk.Parallel(n, runtime.NumCPU(), func(i int) {
 		r := c.Rand("c04", int64(i))
@@ -535,6 +535,109 @@ func main() {
 			c.Sample(desc)
 		}
 	})
+	// long pauses of the inbound stream (0.7 .. 1.3 s) at chosen places: inside a value, inside the CheckSum tag or
+	// value, between two fields, between two messages. Read timing must not change what is delivered.
+	ns := c.Pick(32, 400)
+	var swg sync.WaitGroup
+	ssem := make(chan struct{}, 64)
+	for i := 0; i < ns; i++ {
+		swg.Add(1)
+		ssem <- struct{}{}
+		go func(i int) {
+			defer swg.Done()
+			defer func() { <-ssem }()
+			r := c.Rand("c04-stall", int64(i))
+			buf := []int{0, 1, 10}[r.Intn(3)]
+			nmsg := 3 + r.Intn(4)
+			var sent [][]byte
+			var stream []byte
+			var bounds []int
+			for k := 0; k < nmsg; k++ {
+				m := randMsg(r, fmt.Sprintf("st-%d", k))
+				if len(m) > 600 {
+					m = randMsg(rand.New(rand.NewSource(int64(i*100+k))), fmt.Sprintf("st-%d", k))
+				}
+				sent = append(sent, m)
+				stream = append(stream, m...)
+				bounds = append(bounds, len(stream))
+			}
+			// where to pause
+			where := []string{"inside-a-value", "inside-the-checksum-tag", "inside-the-checksum-value", "between-two-fields", "between-two-messages"}[i%5]
+			k := r.Intn(nmsg - 1)
+			start := 0
+			if k > 0 {
+				start = bounds[k-1]
+			}
+			end := bounds[k]
+			cut := end
+			switch where {
+			case "inside-a-value":
+				cut = start + 12 + r.Intn(end-start-24)
+				for stream[cut] == 1 || stream[cut-1] == 1 {
+					cut++
+				}
+			case "inside-the-checksum-tag":
+				cut = end - 6 // "10" | "=ddd" SOH
+			case "inside-the-checksum-value":
+				cut = end - 2
+			case "between-two-fields":
+				cut = start + 12 + r.Intn(end-start-24)
+				for stream[cut-1] != 1 {
+					cut++
+				}
+			}
+			pause := time.Duration(700+r.Intn(600)) * time.Millisecond
+			mode := []string{"initiator", "acceptor"}[(i/5)%2]
+			desc := fmt.Sprintf("inbound-stall %s buf=%d messages=%d: the stream pauses for %v %s (offset %d of message %d)", mode, buf, nmsg, pause, where, cut-start, k)
+			replay := map[string]interface{}{"scenario": desc, "index": i, "seed": c.Seed}
+			conn := wire.NewConn("c04st", false)
+			var mu sync.Mutex
+			var got [][]byte
+			record := func(m []byte) bool {
+				mu.Lock()
+				got = append(got, append([]byte(nil), m...))
+				mu.Unlock()
+				return true
+			}
+			done := make(chan struct{})
+			var stop func()
+			if mode == "initiator" {
+				h := simplefixgo.NewInitiatorHandler(context.Background(), "35", buf)
+				h.HandleIncoming(simplefixgo.AllMsgTypes, record)
+				ini := simplefixgo.NewInitiator(conn, h, buf, 5*time.Second)
+				go func() { ini.Serve(); close(done) }()
+				stop = func() { ini.Close(); h.Stop() }
+			} else {
+				lst := wire.NewListener()
+				acc := simplefixgo.NewAcceptor(lst, simplefixgo.NewAcceptorHandlerFactory("35", buf), 5*time.Second, func(h simplefixgo.AcceptorHandler) {
+					h.HandleIncoming(simplefixgo.AllMsgTypes, record)
+				})
+				go func() { acc.ListenAndServe(); close(done) }()
+				lst.Connect(conn)
+				stop = func() { acc.Close() }
+			}
+			conn.Feed(stream[:cut])
+			time.Sleep(pause)
+			conn.Feed(stream[cut:])
+			waitFor(func() bool { mu.Lock(); defer mu.Unlock(); return len(got) >= nmsg }, 5*time.Second, conn)
+			time.Sleep(5 * time.Millisecond)
+			mu.Lock()
+			g2 := append([][]byte(nil), got...)
+			mu.Unlock()
+			c.Eval(vk.Hash64([]byte(desc)), true)
+			c.SetAdd("inbound_stall_places", where)
+			c.Count("inbound_stall_scenarios", 1)
+			compare(c, "inbound/after-a-long-pause/"+where, sent, g2, replay)
+			stop()
+			conn.Close()
+			select {
+			case <-done:
+			case <-time.After(5 * time.Second):
+			}
+		}(i)
+	}
+	swg.Wait()
+
 	// outbound stream under a write fault: the peer stops reading in the middle of one message (the write is cut short
 	// and runs into its deadline) and then reads again. Whatever the library does about the fault, the bytes the peer
 	// receives must remain a prefix of the handed-off messages in hand-off order.
